@@ -80,8 +80,10 @@ Definition name_ok (m : nsmap) (p : option str) (l : str) (k : itree) : bool :=
 Fixpoint pred_b (m : nsmap) (e : expr) (pl : payload) : bool :=
   match e with
   | BooleanOperator OpAnd l r => pred_b m l pl && pred_b m r pl
-  | BooleanOperator OpEq (AttributeValue p a) (AnyValue (VStr v)) => str_eqb (opt_default [] (delb_attr pl (attr_ns m p) a)) v
-  | BooleanOperator OpEq (AnyValue (VStr v)) (AttributeValue p a) => str_eqb v (opt_default [] (delb_attr pl (attr_ns m p) a))
+  | BooleanOperator OpEq (AttributeValue p a) (AnyValue (VStr v)) =>
+      match delb_attr pl (attr_ns m p) a with Some x => str_eqb x v | None => false end
+  | BooleanOperator OpEq (AnyValue (VStr v)) (AttributeValue p a) =>
+      match delb_attr pl (attr_ns m p) a with Some x => str_eqb v x | None => false end
   | _ => false
   end.
 Definition smatch (m : nsmap) (p : option str) (l : str) (ps : list expr) (k : itree) : bool :=
@@ -95,8 +97,10 @@ Proof.
   - (* = *)
     destruct l as [[s|n]|p a|p a|? ? ?|? ?]; try discriminate;
       destruct r as [[s'|n']|p' a'|p' a'|? ? ?|? ?]; try discriminate; cbn [bound] in Hb.
-    + rewrite andb_true_l in Hb. rewrite d_expr_binop. cbn [d_expr]. rewrite (unknown_prefix_ok _ _ Hb), Ht. reflexivity.
-    + rewrite andb_true_r in Hb. rewrite d_expr_binop. cbn [d_expr]. rewrite (unknown_prefix_ok _ _ Hb), Ht. reflexivity.
+    + rewrite andb_true_l in Hb. rewrite d_expr_binop. cbn [d_expr]. rewrite (unknown_prefix_ok _ _ Hb), Ht. cbn [bind pred_b].
+      destruct (delb_attr (ipayload (snd c)) (attr_ns m p') a'); reflexivity.
+    + rewrite andb_true_r in Hb. rewrite d_expr_binop. cbn [d_expr]. rewrite (unknown_prefix_ok _ _ Hb), Ht. cbn [bind pred_b].
+      destruct (delb_attr (ipayload (snd c)) (attr_ns m p) a); reflexivity.
   - (* and *)
     apply andb_prop in Hl as [H1 H2]. cbn [bound] in Hb. apply andb_prop in Hb as [B1 B2].
     rewrite d_expr_binop, (IHl H1 B1 c pos size Ht), (IHr H2 B2 c pos size Ht). reflexivity.
@@ -314,7 +318,7 @@ Definition readback (m : nsmap) (A : list attr) (d : str * str * str) : Prop :=
 
 Lemma attr_readback m p a v ns l A inh :
   pfx_wf p = true -> readback m A (opt_default [] p, a, v) ->
-  opt_default [] (delb_attr (PTag ns l (A ++ inh)) (attr_ns m p) a) = v.
+  delb_attr (PTag ns l (A ++ inh)) (attr_ns m p) a = Some v.
 Proof.
   intros Hw (v' & Hg & ->). unfold key_of in Hg. cbn [fst snd] in Hg.
   unfold delb_attr. cbn [payload_attrs]. unfold attr_ns.
